@@ -197,7 +197,8 @@ std::shared_ptr<const X> cached(const std::string &key, Make &&make) {
   if (c.mode == 0) return std::shared_ptr<const X>(make());
   auto it = c.objs.find(key);
   if (it != c.objs.end()) return std::static_pointer_cast<const X>(it->second);
-  if (c.mode == 2) throw std::runtime_error("harness: operand not in the frozen cache");
+  // not built in the fill pass (its construction was refused there): construct it locally, it will be refused again
+  if (c.mode == 2) return std::shared_ptr<const X>(make());
   std::shared_ptr<const X> p(make());
   c.objs[key] = p;
   return p;
